@@ -15,4 +15,8 @@ for src in probe/*.c; do
     gcc $flags -o "$out.tmp.$$" "$src" && mv -f "$out.tmp.$$" "$out"
   fi
 done
-go build -tags verif -o "bin/vcheck.tmp.$$" ./cmd/vcheck && mv -f "bin/vcheck.tmp.$$" bin/vcheck
+# pkg/cgroup is instrumented through an overlay generated from the current files (the repository is not touched)
+mkdir -p "bin/overlay.$$"
+go run ./tools/overlay /repo "bin/overlay.$$" >/dev/null
+go build -overlay "bin/overlay.$$/overlay.json" -tags verif -o "bin/vcheck.tmp.$$" ./cmd/vcheck && mv -f "bin/vcheck.tmp.$$" bin/vcheck
+rm -rf "bin/overlay.$$"
